@@ -31,6 +31,7 @@ import (
 	"math/rand"
 	"net/http"
 	"net/http/httptest"
+	"os"
 	"runtime"
 	"sort"
 	"strconv"
@@ -85,6 +86,8 @@ type Case struct {
 	Panic   string    `json:"panic,omitempty"`
 	With    *Case     `json:"with,omitempty"` // overlapping requests: the request served inside every write of this one
 	Skip    string    `json:"skip,omitempty"` // the case could not be observed (no Tail frame within the time limit on a loaded machine)
+	Big     *BigSpec  `json:"big,omitempty"`     // bigtrace: the recipe of the spans (bigtrace.go)
+	BigOut  *BigOut   `json:"big_out,omitempty"` // bigtrace: what was observed
 }
 
 // ---------------------------------------------------------------------------------- overlapping requests
@@ -1922,6 +1925,10 @@ func run(c *Case) {
 		runOpt(c)
 		return
 	}
+	if c.Kind == "bigtrace" {
+		runBig(c)
+		return
+	}
 	if tempoKinds[c.Kind] {
 		var body string
 		c.Panic = hx.Catch(func() { body = runTempo(c) })
@@ -2034,6 +2041,10 @@ func main() {
 			runOverlapped(&c)
 			out.Put(c)
 		})
+		return
+	}
+	if src := os.Getenv("VERIF_BIGTRACE_SRC"); src != "" {
+		mainBig(f.Seed, src, out)
 		return
 	}
 	r := hx.Rand(f.Seed)
